@@ -75,10 +75,28 @@ def run_ddsmt(workdir, text, spec, opts, mode='blackbox', plan=None, spec_cc=Non
     else:
         tmpdir = os.path.join(workdir, 'tmp')
     os.makedirs(tmpdir)
+    crc = zlib.crc32(text.encode('utf-8', 'replace'))
+    if infile_name is None and crc % 7 == 4:
+        # a file name with blanks, parentheses and a non-ASCII letter
+        infile_name = 'my input (1) ü' + ext
     infile = os.path.join(workdir, infile_name or ('input' + ext))
     outfile = os.path.join(workdir, 'output' + ext)
     with open(infile, 'w', newline='') as f:
         f.write(text)
+    r.stale_left = False
+    stale = None
+    link = False
+    if crc % 5 == 3:
+        # the output file of an earlier run is still there
+        stale = ';; output of an earlier run\n(stale (content))\n'
+        with open(outfile, 'w', newline='') as f:
+            f.write(stale)
+    elif crc % 11 == 6:
+        # the output name exists already - as a symbolic link to the input file
+        os.symlink(os.path.basename(infile), outfile)
+        link = True
+    if verbosity == ('-v', ) and crc % 4 == 2:
+        verbosity = ('-v', '-v')
     in_sha = sha(infile)
     sp = vspec.write_spec(spec, os.path.join(workdir, 'main.spec'))
     log = os.path.join(workdir, 'cmd.log')
@@ -86,7 +104,12 @@ def run_ddsmt(workdir, text, spec, opts, mode='blackbox', plan=None, spec_cc=Non
     argv = list(verbosity) + opts_to_argv(opts)
     if spec_cc is not None:
         spc = vspec.write_spec(spec_cc, os.path.join(workdir, 'cc.spec'))
-        argv += ['-c', ' '.join(vspec.cmdline(spc, log, 'cc'))]
+        # the cross-check command is ONE argument that ddSMT splits at white space: several
+        # blanks or a tab between its words, and words holding quote characters, are legal
+        ccwords = vspec.cmdline(spc, log, 'cc')
+        if crc % 3:
+            ccwords = ccwords + (["--tag=o'brien", 'say"hi'] if crc % 3 == 2 else ["it's"])
+        argv += ['-c', ('  ' if crc % 2 else ' \t ').join(ccwords) if crc % 4 else ' '.join(ccwords)]
     # a third of the runs name the files and the command relative to the working directory
     relative = zlib.crc32(text.encode('utf-8', 'replace')) % 3 == 0
     r.infile_arg = os.path.basename(infile) if relative else infile
@@ -161,9 +184,16 @@ def run_ddsmt(workdir, text, spec, opts, mode='blackbox', plan=None, spec_cc=Non
     r.infile, r.outfile, r.workdir = infile, outfile, workdir
     r.input_unchanged = os.path.exists(infile) and sha(infile) == in_sha
     r.out_text = None
-    if os.path.exists(outfile):
+    if link and os.path.islink(outfile):
+        # nothing was written: the link is still there (and the input is what it points to)
+        r.stale_left = True
+    elif os.path.exists(outfile):
         with open(outfile, newline='') as f:
             r.out_text = f.read()
+        if stale is not None and r.out_text == stale:
+            # ddSMT wrote nothing: the old file is untouched, there is no output of this run
+            r.out_text = None
+            r.stale_left = True
     r.log = vspec.read_log(log)
     r.tmp_left = sorted(os.listdir(tmpdir))
     if tmp_base:
